@@ -1037,7 +1037,7 @@ theorem solveLoopP_computes_opt (sv : SolverCfg S) (H : Nat → S → EInt) (B0 
   obtain ⟨h1, h2⟩ := solveLoopP_correct sv H B0 B hwf n hn
   exact ⟨n, hn, (pooled_partial_correct_long_arcs sv H B0 B hwf _ (solveLoopP_run sv n _)).2.2.1, h1, h2⟩
 
-/-- **`pooled_eq_clean_opt`** (stated, not proved, in `Props/C15.lean`), without long arcs: for a well-formed model in which every
+/-- **`pooled_eq_clean_opt`** (the sentence of the property, formerly a placeholder in `Props/C15.lean`), without long arcs: for a well-formed model in which every
     variable impacts every state, the sequential solver over the pooled diagram and the one over the clean diagrams both
     terminate and report the same completion (the optimum, or no value iff infeasible) -/
 theorem pooled_eq_clean_opt_allImpacted (sv : SolverCfg S) (H : Nat → S → EInt) (B0 B : Int) (hwf : WellFormed sv H B0 B)
